@@ -18,7 +18,7 @@ theorem specExit_table (m e q : Bool) :
 entries, every admissible schedule of the parallel drivers, `--quiet`/`--stats`/`--no-messages`/implicit
 path, provided no write to stdout fails (that case is `C15_pipe`). -/
 theorem exit_eq_spec (c : Cfg) (all ran : List Item) (hs : Sched c all ran) (hw : WritesOk all)
-    (hok : c.setupOk = true) :
+    (hok : c.setupOk = true) (hfl : flushes c = true → c.flush = .ok) :
     (main c .ok ran).exit = specExit (specMatched c all) (specErrored c all) c.quiet := by
   cases hm : c.mode with
   | search =>
@@ -30,30 +30,33 @@ theorem exit_eq_spec (c : Cfg) (all ran : List Item) (hs : Sched c all ran) (hw 
       | false =>
         have : ran = all := by simpa [Sched, hp] using hs
         subst this
-        rw [main_search_seq c ran hm hmp hp hok, searchLoop_nopipe c ran {} hw]
+        rw [main_search_seq c ran hm hmp hp hok, searchLoop_nopipe c ran (initSt c) hw]
         simp only [Bool.false_eq_true, if_false]
+        rw [conclude_ok _ _ _ (hfl (by simp [flushes, hm, hmp, hp]))]
         apply exit_core
-        · simp [specMatched, hm, hmp, searchLoop_matched c ran {} hw]
+        · simp [specMatched, hm, hmp, searchLoop_matched c ran (initSt c) hw]
         · intro hq
-          obtain ⟨h1, h2⟩ := searchLoop_full c hm ran {} hw hq
+          obtain ⟨h1, h2⟩ := searchLoop_full c hm ran (initSt c) hw hq
           rw [afterCheck_errored, h1, h2]
-          simp [specErrored, hm, hmp]
+          simp [specErrored, hm, hmp, Bool.or_assoc]
       | true =>
         obtain ⟨rest, hperm, hrest⟩ : ∃ rest, (ran ++ rest).Perm all ∧ (quitIssued c ran = false → rest = []) := by
           simpa [Sched, hp] using hs
         have hwr : WritesOk ran := fun x hx => hw x (hperm.mem_iff.mp (List.mem_append_left _ hx))
-        obtain ⟨f1, f2, f3, f4⟩ := parSearchLoop_flags c hm ran {} hwr
+        obtain ⟨f1, f2, f3, f4⟩ := parSearchLoop_flags c hm ran (initSt c) hwr
+        simp only [initSt_matched, initSt_errored, initSt_searched, initSt_brokenPipe] at f1 f2 f3 f4
         rw [main_search_par c ran hm hmp hp hok, f4]
         simp only [Bool.false_eq_true, if_false]
-        cases hq : (parSearchLoop c ran {}).2 with
+        cases hq : (parSearchLoop c ran (initSt c)).2 with
         | true =>
-          obtain ⟨q1, q2⟩ := parSearchLoop_quit c ran {} hwr hq
+          obtain ⟨q1, q2⟩ := parSearchLoop_quit c ran (initSt c) hwr hq
           have hM : specMatched c all = true := by
             have : (ran ++ rest).any isMatch = true := by
               rw [List.any_append, ← Bool.false_or (ran.any isMatch), ← f1, q1]; rfl
             simpa [specMatched, hm, hmp, hperm.any_eq] using this
           rw [q1, hM, qam_quiet c q2]
-          cases (afterCheck c (parSearchLoop c ran {}).1).errored <;> cases specErrored c all <;> decide
+          show exitCode true true _ = specExit true _ true
+          cases (afterCheck c (parSearchLoop c ran (initSt c)).1).errored <;> cases specErrored c all <;> decide
         | false =>
           have hr : rest = [] := hrest (by simp [quitIssued, hm, hq])
           subst hr
@@ -62,28 +65,30 @@ theorem exit_eq_spec (c : Cfg) (all ran : List Item) (hs : Sched c all ran) (hw 
           · simp [specMatched, hm, hmp, ← hperm.any_eq, f1]
           · intro _
             rw [afterCheck_errored, f2, f3]
-            simp [specErrored, hm, hmp, ← hperm.any_eq]
+            simp [specErrored, hm, hmp, ← hperm.any_eq, Bool.or_assoc]
   | files =>
     cases hp : c.parallel with
     | false =>
       have : ran = all := by simpa [Sched, hp] using hs
       subst this
-      obtain ⟨h1, h2⟩ := filesLoop_ok c ran {} hw
+      obtain ⟨h1, h2⟩ := filesLoop_ok c ran (initSt c) hw
       rw [main_files_seq c ran hm hp hok, h1]
       simp only
+      rw [conclude_ok _ _ _ (hfl (by simp [flushes, hm]))]
       apply exit_core
       · simp [specMatched, hm, h2]
       · intro hq
-        rw [filesLoop_full c hm ran {} hw hq]
+        rw [filesLoop_full c hm ran (initSt c) hw hq]
         simp [specErrored, hm]
     | true =>
       obtain ⟨rest, hperm, hrest⟩ : ∃ rest, (ran ++ rest).Perm all ∧ (quitIssued c ran = false → rest = []) := by
         simpa [Sched, hp] using hs
       have hwr : WritesOk ran := fun x hx => hw x (hperm.mem_iff.mp (List.mem_append_left _ hx))
-      obtain ⟨f1, f2⟩ := filesParWalk_flags c hm ran {}
-      have hpt := printThread_ok _ (filesParWalk_sent_ok c ran {} hwr)
+      obtain ⟨f1, f2⟩ := filesParWalk_flags c hm ran (initSt c)
+      have hpt := printThread_ok _ (filesParWalk_sent_ok c ran (initSt c) hwr)
       rw [main_files_par c ran hm hp hok, hpt]
       simp only
+      rw [conclude_ok _ _ _ (hfl (by simp [flushes, hm]))]
       cases hq : (c.qam && ran.any isFile) with
       | true =>
         simp only [Bool.and_eq_true] at hq
@@ -91,7 +96,9 @@ theorem exit_eq_spec (c : Cfg) (all ran : List Item) (hs : Sched c all ran) (hw 
           have : (ran ++ rest).any isFile = true := by rw [List.any_append, hq.2]; rfl
           simpa [specMatched, hm, hperm.any_eq] using this
         rw [f1, hq.2, hM, qam_quiet c hq.1]
-        cases (filesParWalk c ran {}).1.errored <;> cases specErrored c all <;> decide
+        show exitCode ((initSt c).matched || true) true _ = specExit true _ true
+        rw [initSt_matched]
+        cases (filesParWalk c ran (initSt c)).1.errored <;> cases specErrored c all <;> decide
       | false =>
         have hr : rest = [] := hrest (by simp [quitIssued, hm, hq, hpt])
         subst hr
@@ -105,19 +112,20 @@ theorem exit_eq_spec (c : Cfg) (all ran : List Item) (hs : Sched c all ran) (hw 
 /-- The property's wording: 0 ⇔ matched and (quiet or no error); 2 ⇔ error and not (matched and quiet);
 1 ⇔ nothing matched and no error. -/
 theorem exit_table (c : Cfg) (all ran : List Item) (hs : Sched c all ran) (hw : WritesOk all)
-    (hok : c.setupOk = true) :
+    (hok : c.setupOk = true) (hfl : flushes c = true → c.flush = .ok) :
     ((main c .ok ran).exit = 0 ↔ (specMatched c all = true ∧ (c.quiet = true ∨ specErrored c all = false))) ∧
     ((main c .ok ran).exit = 2 ↔ (specErrored c all = true ∧ ¬ (specMatched c all = true ∧ c.quiet = true))) ∧
     ((main c .ok ran).exit = 1 ↔ (specMatched c all = false ∧ specErrored c all = false)) := by
-  rw [exit_eq_spec c all ran hs hw hok]
+  rw [exit_eq_spec c all ran hs hw hok hfl]
   exact specExit_table _ _ _
 
-/-- An invalid pattern / glob / encoding / flag: status 2, one diagnostic, no results. -/
+/-- An invalid pattern / glob / encoding / flag: status 2, one diagnostic (after the one about the configuration
+file, if that could not be read either), no results. -/
 theorem invalid_args_no_results (c : Cfg) (items : List Item) :
-    main c .err items = ⟨2, [.fatal], []⟩ ∧
+    main c .err items = ⟨2, (initSt c).diags ++ [.fatal], []⟩ ∧
     (c.setupOk = false → (c.mode = .search → c.matchesPossible = true) →
-      main c .ok items = ⟨2, [.fatal], []⟩) := by
-  refine ⟨rfl, ?_⟩
+      main c .ok items = ⟨2, (initSt c).diags ++ [.fatal], []⟩) := by
+  refine ⟨by simp [main, run], ?_⟩
   intro h hmp
   cases hm : c.mode with
   | search =>
@@ -148,17 +156,17 @@ theorem errors_do_not_suppress (c : Cfg) (p : Parse) (pre post : List Item) (f :
         | true =>
           cases hp : c.parallel with
           | false =>
-            have key := (searchLoop_drop c pre post f hf {}).2
+            have key := (searchLoop_drop c pre post f hf (initSt c)).2
             rw [main_search_seq c _ hm hmp hp hok, main_search_seq c _ hm hmp hp hok]
             split <;> split <;> simpa using key
           | true =>
-            have key := (parSearchLoop_drop c pre post f hf {}).2
+            have key := (parSearchLoop_drop c pre post f hf (initSt c)).2
             rw [main_search_par c _ hm hmp hp hok, main_search_par c _ hm hmp hp hok]
             split <;> split <;> simpa using key
       | files =>
         cases hp : c.parallel with
         | false =>
-          have key := (filesLoop_drop c hm pre post f hf {}).2
+          have key := (filesLoop_drop c hm pre post f hf (initSt c)).2
           rw [main_files_seq c _ hm hp hok, main_files_seq c _ hm hp hok]
           split <;> split <;> simpa using key
         | true =>
@@ -170,7 +178,7 @@ theorem errors_do_not_suppress (c : Cfg) (p : Parse) (pre post : List Item) (f :
           subst hw
           rw [main_files_par c _ hm hp hok, main_files_par c _ hm hp hok,
             filesParWalk_drop, filesParWalk_out, filesParWalk_out]
-          split <;> rfl
+          split <;> simp
 
 /-- Without `--quiet`'s early stop and with a live consumer, the results of *every* healthy entry are
 written, in processing order — whatever faults lie in between. -/
@@ -181,19 +189,149 @@ theorem all_results_produced (c : Cfg) (ran : List Item) (hq : c.qam = false) (h
   | search =>
     cases hp : c.parallel with
     | false =>
-      rw [main_search_seq c _ hm hmp hp hok, searchLoop_nopipe c ran {} hw]
-      simp [searchLoop_out c hm hq ran {} hw]
+      rw [main_search_seq c _ hm hmp hp hok, searchLoop_nopipe c ran (initSt c) hw]
+      simp [searchLoop_out c hm hq ran (initSt c) hw]
     | true =>
-      rw [main_search_par c _ hm hmp hp hok, (parSearchLoop_flags c hm ran {} hw).2.2.2]
-      simp [parSearchLoop_out c hm ran {} hw]
+      rw [main_search_par c _ hm hmp hp hok, (parSearchLoop_flags c hm ran (initSt c) hw).2.2.2]
+      simp [parSearchLoop_out c hm ran (initSt c) hw]
   | files =>
     cases hp : c.parallel with
     | false =>
-      rw [main_files_seq c _ hm hp hok, (filesLoop_ok c ran {} hw).1]
-      simp [filesLoop_out c hm hq ran {} hw]
+      rw [main_files_seq c _ hm hp hok, (filesLoop_ok c ran (initSt c) hw).1]
+      simp [filesLoop_out c hm hq ran (initSt c) hw]
     | true =>
-      rw [main_files_par c _ hm hp hok, printThread_ok _ (filesParWalk_sent_ok c ran {} hw)]
-      simp [filesParWalk_out, filesPar_out c hm hq ran {} hw]
+      rw [main_files_par c _ hm hp hok, printThread_ok _ (filesParWalk_sent_ok c ran (initSt c) hw)]
+      simp [filesParWalk_out, filesPar_out c hm hq ran (initSt c) hw]
+
+/-! ### The configuration file, and the last write -/
+
+/-- **A configuration file that cannot be read or parsed counts as an error** (since 379b616): the status is 2
+unless `--quiet` found a match, the results are those of the same run without the complaint, and the complaint
+is on stderr (unless `--no-messages`). -/
+theorem C15_config (c : Cfg) (all ran : List Item) (hs : Sched c all ran) (hw : WritesOk all)
+    (hok : c.setupOk = true) (hfl : flushes c = true → c.flush = .ok) (hce : c.configErr = true) :
+    (main c .ok ran).exit = (if specMatched c all && c.quiet then 0 else 2) ∧
+    (c.messages = true → Diag.config ∈ (main c .ok ran).diags) := by
+  constructor
+  · rw [exit_eq_spec c all ran hs hw hok hfl]
+    have : specErrored c all = true := by simp [specErrored, hce]
+    rw [this]
+    cases specMatched c all <;> cases c.quiet <;> decide
+  · intro hmsg
+    have h0 := config_in_initSt c hce hmsg
+    cases hm : c.mode with
+    | search =>
+      cases hmp : c.matchesPossible with
+      | false => simpa [main, run, hm, hmp] using h0
+      | true =>
+        cases hp : c.parallel with
+        | false =>
+          rw [main_search_seq c ran hm hmp hp hok]
+          split
+          · exact searchLoop_keeps c ran _ _ h0
+          · exact conclude_keeps _ _ _ _ (afterCheck_keeps _ _ _ (searchLoop_keeps c ran _ _ h0))
+        | true =>
+          rw [main_search_par c ran hm hmp hp hok]
+          split
+          · exact parSearchLoop_keeps c ran _ _ h0
+          · exact afterCheck_keeps _ _ _ (parSearchLoop_keeps c ran _ _ h0)
+    | files =>
+      cases hp : c.parallel with
+      | false =>
+        rw [main_files_seq c ran hm hp hok]
+        split
+        · exact conclude_keeps _ _ _ _ (filesLoop_keeps c ran _ _ h0)
+        · exact filesLoop_keeps c ran _ _ h0
+        · exact List.mem_append_left _ (filesLoop_keeps c ran _ _ h0)
+      | true =>
+        rw [main_files_par c ran hm hp hok]
+        split
+        · exact conclude_keeps _ _ _ _ (filesParWalk_keeps c ran _ _ h0)
+        · exact filesParWalk_keeps c ran _ _ h0
+        · exact List.mem_append_left _ (filesParWalk_keeps c ran _ _ h0)
+
+/-- **The last write** (since f052aea).  On the paths that end with an explicit flush of stdout (single-threaded
+search, `--files` with any number of threads), when every earlier write went through: a flush that fails is an
+error — status 2 and a diagnostic —, a flush that meets a closed pipe ends the run quietly with status 0 and
+no diagnostic of its own. -/
+theorem C15_flush (c : Cfg) (ran : List Item) (hflushes : flushes c = true) (hw : WritesOk ran)
+    (hok : c.setupOk = true) :
+    (c.flush = .err → (main c .ok ran).exit = 2 ∧ Diag.fatal ∈ (main c .ok ran).diags) ∧
+    (c.flush = .pipe → (main c .ok ran).exit = 0 ∧
+      ∀ d ∈ (main c .ok ran).diags, d = .config ∨ d = .nothingSearched ∨ d ∈ ran.filterMap (diagOf c)) := by
+  cases hm : c.mode with
+  | search =>
+    have hx : c.matchesPossible = true ∧ c.parallel = false := by simpa [flushes, hm] using hflushes
+    obtain ⟨hmp, hp⟩ := hx
+    rw [main_search_seq c ran hm hmp hp hok, searchLoop_nopipe c ran (initSt c) hw]
+    simp only [Bool.false_eq_true, if_false]
+    constructor
+    · intro he
+      rw [conclude_err _ _ _ he]
+      exact ⟨rfl, by simp⟩
+    · intro he
+      rw [conclude_pipe _ _ _ he]
+      refine ⟨rfl, fun d hd => ?_⟩
+      rcases mem_afterCheck _ _ _ hd with h | h
+      · rcases searchLoop_diags c hm hp ran _ d h with h | h
+        · exact .inl (mem_initSt_diags c d h)
+        · exact .inr (.inr h)
+      · exact .inr (.inl h)
+  | files =>
+    cases hp : c.parallel with
+    | false =>
+      rw [main_files_seq c ran hm hp hok, (filesLoop_ok c ran (initSt c) hw).1]
+      simp only
+      constructor
+      · intro he
+        rw [conclude_err _ _ _ he]
+        exact ⟨rfl, by simp⟩
+      · intro he
+        rw [conclude_pipe _ _ _ he]
+        refine ⟨rfl, fun d hd => ?_⟩
+        rcases filesLoop_diags c ran _ d hd with h | h
+        · exact .inl (mem_initSt_diags c d h)
+        · exact .inr (.inr h)
+    | true =>
+      rw [main_files_par c ran hm hp hok, printThread_ok _ (filesParWalk_sent_ok c ran (initSt c) hw)]
+      simp only
+      constructor
+      · intro he
+        rw [conclude_err _ _ _ he]
+        exact ⟨rfl, by simp⟩
+      · intro he
+        rw [conclude_pipe _ _ _ he]
+        refine ⟨rfl, fun d hd => ?_⟩
+        rcases filesParWalk_diags c ran _ d hd with h | h
+        · exact .inl (mem_initSt_diags c d h)
+        · exact .inr (.inr h)
+
+/-- **The full table**: whatever the last write does.  Exit status = the property's table when the final flush
+succeeds (or the path has none), 2 when it fails, 0 when it meets a closed pipe — all four drivers, every
+schedule, provided the earlier writes went through (a write that fails earlier is `C15_pipe` / the per-file
+write diagnostics). -/
+theorem exit_eq_spec_full (c : Cfg) (all ran : List Item) (hs : Sched c all ran) (hw : WritesOk all)
+    (hok : c.setupOk = true) : (main c .ok ran).exit = specExitFull c all := by
+  unfold specExitFull
+  cases hfz : flushes c with
+  | false =>
+    simp only [Bool.false_eq_true, if_false]
+    exact exit_eq_spec c all ran hs hw hok (by simp [hfz])
+  | true =>
+    simp only [if_true]
+    have hwr : WritesOk ran := by
+      cases hp : c.parallel with
+      | false =>
+        have : ran = all := by simpa [Sched, hp] using hs
+        rw [this]; exact hw
+      | true =>
+        obtain ⟨rest, hperm, _⟩ : ∃ rest, (ran ++ rest).Perm all ∧ (quitIssued c ran = false → rest = []) := by
+          simpa [Sched, hp] using hs
+        exact fun x hx => hw x (hperm.mem_iff.mp (List.mem_append_left _ hx))
+    cases hf : c.flush with
+    | ok => exact exit_eq_spec c all ran hs hw hok (fun _ => hf)
+    | pipe => exact ((C15_flush c ran hfz hwr hok).2 hf).1
+    | err => exact ((C15_flush c ran hfz hwr hok).1 hf).1
 
 /-! ### `--stats` -/
 
@@ -214,18 +352,18 @@ theorem stats_table (c : Cfg) (all ran : List Item) (hs : Sched c all ran) (hw :
     obtain ⟨rest, hperm, hrest⟩ : ∃ rest, (ran ++ rest).Perm all ∧ (quitIssued c ran = false → rest = []) := by
       simpa [Sched, hp] using hs
     have hwr : WritesOk ran := fun x hx => hw x (hperm.mem_iff.mp (List.mem_append_left _ hx))
-    have hbp := (parSearchLoop_flags c hmode ran {} hwr).2.2.2
-    have hnq : (parSearchLoop c ran {}).2 = false := by
-      cases hqq : (parSearchLoop c ran {}).2 with
+    have hbp := (parSearchLoop_flags c hmode ran (initSt c) hwr).2.2.2
+    have hnq : (parSearchLoop c ran (initSt c)).2 = false := by
+      cases hqq : (parSearchLoop c ran (initSt c)).2 with
       | false => rfl
       | true =>
-        have := (parSearchLoop_quit c ran {} hwr hqq).2
+        have := (parSearchLoop_quit c ran (initSt c) hwr hqq).2
         rw [hq] at this
         cases this
     have hr : rest = [] := hrest (by simp [quitIssued, hmode, hnq])
     subst hr
     simp only [List.append_nil] at hperm
-    have hbp' : (parSearchLoop c ran {}).1.brokenPipe = false := by simpa using hbp
+    have hbp' : (parSearchLoop c ran (initSt c)).1.brokenPipe = false := by simpa using hbp
     simp [statsPrinted, hst, hmode, hmp, hok, hp, hbp', parStats_eq, specStats, hperm.countP_eq]
 
 /-- A consumer that closes the pipe gets no summary (the driver returns before `print_stats`). -/
@@ -236,10 +374,10 @@ theorem stats_not_after_pipe (c : Cfg) (ran : List Item) (hmode : c.mode = .sear
   · rfl
   · cases hp : c.parallel with
     | true =>
-      have : (parSearchLoop c ran {}).1.brokenPipe = true := by simpa [pipeHit, hmode, hp] using hpipe
+      have : (parSearchLoop c ran (initSt c)).1.brokenPipe = true := by simpa [pipeHit, hmode, hp] using hpipe
       simp [this]
     | false =>
-      have hl : (searchLoop c ran {}).2 = true := by simpa [pipeHit, hmode, hp] using hpipe
+      have hl : (searchLoop c ran (initSt c)).2 = true := by simpa [pipeHit, hmode, hp] using hpipe
       simp only [Bool.not_false, if_true]
       -- the two loops leave at the same entry
       have key : ∀ (items : List Item) (st : St) (m : Bool) (s : Stats), st.matched = m →
@@ -260,7 +398,7 @@ theorem stats_not_after_pipe (c : Cfg) (ran : List Item) (hmode : c.mode = .sear
               simp only [searchLoop, hq, Bool.and_false, Bool.false_eq_true, if_false] at h
               simp only [searchStats, hq, Bool.and_false, Bool.false_eq_true, if_false]
               exact ih _ (m || mm) _ (by simp [hm]) h
-      exact key ran {} false {} rfl hl
+      exact key ran (initSt c) false {} (initSt_matched c) hl
 
 /-! ### The consumer closes the pipe -/
 
@@ -275,46 +413,46 @@ parallel ones), whatever faults were reported before, with or without `--pre`.  
 owed to a faulty entry. -/
 theorem C15_pipe (c : Cfg) (ran : List Item) (hok : c.setupOk = true) (hmp : c.matchesPossible = true)
     (hpipe : pipeHit c ran = true) :
-    (main c .ok ran).exit = 0 ∧ ∀ d ∈ (main c .ok ran).diags, d ∈ ran.filterMap (diagOf c) := by
+    (main c .ok ran).exit = 0 ∧ ∀ d ∈ (main c .ok ran).diags, d = .config ∨ d ∈ ran.filterMap (diagOf c) := by
   cases hm : c.mode with
   | search =>
     cases hp : c.parallel with
     | false =>
-      have hl : (searchLoop c ran {}).2 = true := by simpa [pipeHit, hm, hp] using hpipe
+      have hl : (searchLoop c ran (initSt c)).2 = true := by simpa [pipeHit, hm, hp] using hpipe
       rw [main_search_seq c _ hm hmp hp hok, hl]
       refine ⟨rfl, fun d hd => ?_⟩
-      rcases searchLoop_diags c hm hp ran {} d hd with h | h
-      · simp at h
-      · exact h
+      rcases searchLoop_diags c hm hp ran (initSt c) d hd with h | h
+      · exact .inl (mem_initSt_diags c d h)
+      · exact .inr h
     | true =>
-      have hl : (parSearchLoop c ran {}).1.brokenPipe = true := by simpa [pipeHit, hm, hp] using hpipe
+      have hl : (parSearchLoop c ran (initSt c)).1.brokenPipe = true := by simpa [pipeHit, hm, hp] using hpipe
       rw [main_search_par c _ hm hmp hp hok, hl]
       refine ⟨rfl, fun d hd => ?_⟩
-      rcases parSearchLoop_diags c hm hp ran {} d hd with h | h
-      · simp at h
-      · exact h
+      rcases parSearchLoop_diags c hm hp ran (initSt c) d hd with h | h
+      · exact .inl (mem_initSt_diags c d h)
+      · exact .inr h
   | files =>
     cases hp : c.parallel with
     | false =>
       have hl : filesPipe c ran = true := by simpa [pipeHit, hm, hp] using hpipe
-      rw [main_files_seq c _ hm hp hok, filesLoop_pipe c ran {} hl]
+      rw [main_files_seq c _ hm hp hok, filesLoop_pipe c ran (initSt c) hl]
       refine ⟨rfl, fun d hd => ?_⟩
-      rcases filesLoop_diags c ran {} d hd with h | h
-      · simp at h
-      · exact h
+      rcases filesLoop_diags c ran (initSt c) d hd with h | h
+      · exact .inl (mem_initSt_diags c d h)
+      · exact .inr h
     | true =>
-      have hl : (printThread (filesParWalk c ran {}).2).2 = .pipe := by simpa [pipeHit, hm, hp] using hpipe
+      have hl : (printThread (filesParWalk c ran (initSt c)).2).2 = .pipe := by simpa [pipeHit, hm, hp] using hpipe
       rw [main_files_par c _ hm hp hok, hl]
       refine ⟨rfl, fun d hd => ?_⟩
-      rcases filesParWalk_diags c ran {} d hd with h | h
-      · simp at h
-      · exact h
+      rcases filesParWalk_diags c ran (initSt c) d hd with h | h
+      · exact .inl (mem_initSt_diags c d h)
+      · exact .inr h
 
 /-- The same for the entries as `search` sees them when files go through `--pre`. -/
 theorem C15_pipe_pre (c : Cfg) (raw : List (Bool × Item)) (hok : c.setupOk = true)
     (hmp : c.matchesPossible = true) (hpipe : pipeHit c (raw.map (·.2)) = true) :
     (main c .ok (raw.map seen)).exit = 0 ∧
-    ∀ d ∈ (main c .ok (raw.map seen)).diags, d ∈ (raw.map (·.2)).filterMap (diagOf c) := by
+    ∀ d ∈ (main c .ok (raw.map seen)).diags, d = .config ∨ d ∈ (raw.map (·.2)).filterMap (diagOf c) := by
   have : raw.map seen = raw.map (·.2) := List.map_congr_left (fun x _ => preprocessor_keeps_kind x)
   rw [this]
   exact C15_pipe c _ hok hmp hpipe
